@@ -168,6 +168,17 @@ func runC01(c *Ctx) {
 	runD5(c, "C01", c.Pick(2, 3), func(np NamedProg, txts []string) {
 		semUnit(c, "C01", np.P, txts, false, false)
 	})
+	// D7 nullable bodies (the termination driver of C10, here with the semantic oracle)
+	runGram(c, "C01", "D7", gramD7(), c.Pick(3, 4), texts("a\n", 4), false, false, 0)
+	if c.Level("D7:fixed") {
+		for _, p := range d7Fixed() {
+			p := p
+			if c.Unit(func() string { return progDesc(p) }) {
+				c.Count("programs", 1)
+				semUnit(c, "C01", p, texts("a\n", 4), false, false)
+			}
+		}
+	}
 	// D1r deeper (thorough)
 	if !c.Quick() {
 		runGram(c, "C01", "D1r", gramD1r(), 6, texts("ab", 5), false, false, 0)
